@@ -41,6 +41,7 @@ def op_branches(fn, mod, cls=None, subject="expr.op", consts=None):
         if sel is None:
             continue
         guards = []
+        guard_nodes = []        # (test node, polarity under which this branch runs)
         nested = False
         p = getattr(n, "_parent", None)
         ch = n
@@ -51,12 +52,15 @@ def op_branches(fn, mod, cls=None, subject="expr.op", consts=None):
                     if _selector(p.test, mod, cls, subject, consts) is not None:
                         nested = True
                     guards.append(norm(p.test))
+                    guard_nodes.append((p.test, True))
                 else:
-                    guards.append("not(" + norm(p.test) + ")") if _selector(p.test, mod, cls, subject, consts) is None else None
+                    if _selector(p.test, mod, cls, subject, consts) is None:
+                        guards.append("not(" + norm(p.test) + ")")
+                        guard_nodes.append((p.test, False))
             ch, p = p, getattr(p, "_parent", None)
         if nested:
             continue      # a refinement inside another operator branch, not a branch of its own
-        out.append({"kind": sel[0], "ops": sel[1], "node": n, "body": n.body, "guards": [g for g in guards if g]})
+        out.append({"kind": sel[0], "ops": sel[1], "node": n, "body": n.body, "guards": [g for g in guards if g], "guard_nodes": guard_nodes})
     return out
 
 
@@ -123,3 +127,21 @@ def tok_consts(repo):
             if ok and isinstance(v, str):
                 env[st.targets[0].id] = v
     return env
+
+
+def is_single_operand_branch(b, seq="args"):
+    """Does the branch run where `len(<seq>) > 1` is false (any spelling / orientation of that test)?"""
+    from .astutil import less_than
+    for (t, pol) in b.get("guard_nodes", []):
+        for strictness in (True,):
+            lt = less_than(t, True)
+            if lt is None:
+                continue
+            lo, hi, strict = lt
+            # 1 < len(seq)  |  2 <= len(seq)
+            if norm(hi) == "len(%s)" % seq and ((norm(lo) == "1" and strict) or (norm(lo) == "2" and not strict)):
+                return pol is False
+            # len(seq) < 2 | len(seq) <= 1   (the negated spelling)
+            if norm(lo) == "len(%s)" % seq and ((norm(hi) == "2" and strict) or (norm(hi) == "1" and not strict)):
+                return pol is True
+    return False
